@@ -1,3 +1,4 @@
+import re
 """C09 — QName references resolve by namespace, independent of declaration order."""
 from engine.rulekit import fde
 from engine.rulekit import hir as Hh
@@ -33,6 +34,72 @@ def _prefix_unbound(CE, cond, branch):
     # only "is bound" spellings: is_some_and(prefix, is_some(lookup)), is_some(lookup), islet Some(..) = lookup
     text = og.nf_str(c)
     return positive and "is_none" not in text
+
+
+def _is_other_name(n):
+    """the normal form reads the `name` of an OtherRustType (the bare Rust name of a user type)"""
+    if not isinstance(n, tuple):
+        return False
+    if n[0] == "field" and n[2] == "name" and "Other⟨" in og.nf_str(n[1]):
+        return True
+    return any(_is_other_name(x) for x in n[1:] if isinstance(x, tuple)) or any(
+        _is_other_name(y) for x in n[1:] if isinstance(x, tuple) and x and not isinstance(x[0], str) for y in x if isinstance(y, tuple))
+
+
+def rule_type_refs_qualified(ck, F, rule="R5"):
+    """`prefix:Name` denotes the component of the prefix's namespace: in the generated code that is `<module of the namespace>::Name`.
+    Members are written into structs of other modules as well (inherited members, envelopes), where a bare `Name` is resolved by rustc
+    in the wrong module — silently, when that module has a type of the same name. Decided on the templates: wherever the name of a user
+    type is written into a member's type, the module path is written in front of it (when there is one)."""
+    from rules import templates as T
+    X = T.extractor(F)
+    CE = T._ce(X)
+    n = 0
+    for fn in sorted(X.events):
+        for ev in X.events[fn]:
+            if ev.kind != "emit" or not T.RE_MEMBER.match(ev.skeleton()):
+                continue
+            prev = None
+            seen_colon = False
+            for p in ev.parts:
+                if p[0] == "lit":
+                    prev = p
+                    if ":" in p[1].replace("::", ""):
+                        seen_colon = True
+                    continue
+                if seen_colon and _is_other_name(CE.expand(p[1])):
+                    n += 1
+                    short = fn.rsplit("::", 1)[-1]
+                    module_known_absent = any(c[0] == "alt" and "module" in og.nf_str(c[1]) and og.decision(c[1], c[2])[0][0] == "some" and og.decision(c[1], c[2])[1] is False
+                                              for c in ev.ctx)
+                    if (prev is not None and prev[1].endswith("::")) or module_known_absent:
+                        ck.ok(rule, f"qualified:{short}", ev.site, "the user type's name is written behind its module path", fn=short)
+                    else:
+                        ck.violation(rule, f"bare-type-name:{short}", ev.site,
+                                     f"{short}: the member template `{ev.skeleton().strip()[:50]}` writes the bare name of a user type "
+                                     f"({og.nf_str(p[1])[:60]}) although the type has a module: in a struct of another module (an inherited member, "
+                                     f"an envelope) the name is resolved there, and binds to that module's type of the same name", fn=short)
+                prev = None
+    # the Display of the type carrier is what the other member templates show: it writes module::name
+    ds = CE.display_summary("model::field::RustFieldType")
+    if ds is None:
+        ck.undecided(rule, "display", "-", "what Display of RustFieldType writes could not be read")
+    else:
+        # evaluated for a user type with and without a module (however the body is arranged)
+        got = {}
+        for label, module in (("with-module", fde.some("m_")), ("without-module", None)):
+            val = ("variant", "model::field::RustFieldType::Other", ({"name": "N_", "module": module},))
+            try:
+                got[label] = fde.Evaluator({("param", "self"): val}).ev(ds)
+            except fde.Undecided as u:
+                got[label] = f"undecided: {u}"
+        if got["with-module"] == "m_::N_" and got["without-module"] == "N_":
+            ck.ok(rule, "display", "-", "Display of a user type writes `module::name` when the type has a module, the bare name otherwise")
+        elif str(got["with-module"]).startswith("undecided") or str(got["without-module"]).startswith("undecided"):
+            ck.undecided(rule, "display", "-", f"what Display of a user type writes could not be evaluated: {got}")
+        else:
+            ck.violation(rule, "display", "-", f"Display of a user type with module `m_` and name `N_` writes {got['with-module']!r} "
+                         f"(without a module: {got['without-module']!r}); the reference has to read `m_::N_`")
 
 
 def rule_global_components_only(ck, F, rule="R3"):
@@ -125,6 +192,7 @@ def run(ck, F):
     ck.rule("R2", "prefix table: every in-scope xmlns:p is registered; prefix -> the registry's Namespace for that URI (reused by URI equality)")
     ck.rule("R3", "namespace-dependent selection: the namespace of the reference is read by every by-name selection, and the builtin decision consults the prefix")
     ck.rule("R4", "kind-dependent selection: by-name selections filter on the component kind the reference requires")
+    ck.rule("R5", "the reference is written with the namespace's module: a user type's name in a member's type is preceded by its module path")
     ck.rule("R6", "prefix tables are not overwritten by imports")
     CE = og.CallExpander(F)
     _SPLIT[0] = A.qname_splitter(F)
@@ -396,6 +464,7 @@ def run(ck, F):
                          f"{fname} selects by name (and namespace) only: a reference can bind to a component of another kind that carries the same name", fn=short)
     ck.floor("R3", "by-name selection functions", n_sel, 3)
     rule_global_components_only(ck, F)
+    rule_type_refs_qualified(ck, F)
     # builtin decision: wherever as_rust_type consults the builtin table (the match, the constant table, a helper holding either),
     # it does so only on the paths on which the prefix of the reference was found not to name a namespace of the document
     b = F.lib.body(C02.AS_RUST_TYPE)
